@@ -6,18 +6,41 @@
    COUNTERS   a counter is decremented only as b1.counter_.decr(a, pre) for b1 / a / pre under the cursors, a in the inset of the erased column's block
               AND of b1, pre a label-a predecessor of a state of that block;  (b1, a, pre) is enqueued IFF that decrement returned 0.
    C20        removeMask / partition_ indexed by a column below partition_.size() <= lts.states(); pre(a) below lts.states(). */
-ENG* g_this; BLOCK *g_blk, *b1W, *b1O, *b2; BLOCK* cell_b1; BLOCK* cell_b2; SLE *nH, *nG; void *g_lts, *g_prevv, *g_prelist, *g_rmask, *g_remove0, *cell_rm;
+ENG* g_this; BLOCK *g_blk, *b1W, *b1O, *b2; SLE *nH, *nG; void *g_lts, *g_prevv, *g_prelist, *g_rmask, *g_remove0, *cell_rm;
 uint64_t g_label, g_N, g_S, g_L, wb1i, wc, cell_S; _Bool has_b1, has_c, rm_wc;
-uint64_t g_step; _Bool erased_w, seen_b, cur_b, has_c_cur, seen_c, cur_c, g_col_fresh, g_cur_rm, g_cur_rm_valid, g_erased_cur, g_cont, g_cont_valid, g_decr_pending;
-uint64_t cell_col, cell_a, cell_pre, g_last_decr;
+uint64_t g_step;
+/* the ghosts of each loop level are packed into one object per level: DFCC's frame checks are quadratic in the number of assigns targets */
+struct LP { uint64_t cell_pre, g_last_decr; _Bool g_decr_pending; } gp;
+struct LA { uint64_t cell_a; _Bool g_cont, g_cont_valid; } ga;
+struct LC { uint64_t cell_col; BLOCK* cell_b2; _Bool erased_w, seen_c, cur_c, g_col_fresh, g_cur_rm, g_cur_rm_valid, g_erased_cur; } gc;
+struct LB { BLOCK* cell_b1; _Bool seen_b, cur_b, has_c_cur; } gb;
+#define cell_pre gp.cell_pre
+#define g_last_decr gp.g_last_decr
+#define g_decr_pending gp.g_decr_pending
+#define cell_a ga.cell_a
+#define g_cont ga.g_cont
+#define g_cont_valid ga.g_cont_valid
+#define cell_col gc.cell_col
+#define cell_b2 gc.cell_b2
+#define erased_w gc.erased_w
+#define seen_c gc.seen_c
+#define cur_c gc.cur_c
+#define g_col_fresh gc.g_col_fresh
+#define g_cur_rm gc.g_cur_rm
+#define g_cur_rm_valid gc.g_cur_rm_valid
+#define g_erased_cur gc.g_erased_cur
+#define cell_b1 gb.cell_b1
+#define seen_b gb.seen_b
+#define cur_b gb.cur_b
+#define has_c_cur gb.has_c_cur
 #define BEQ(a, b) (!(a) == !(b))
 #define SHAPE ((nH->f2 == nG || nH->f2 == nH) && (nG->f2 == nG || nG->f2 == nH) && nH->f0 < g_S && nG->f0 < g_S)
 #define DONE_W ((has_c && rm_wc) ==> erased_w)
-#define G_PRE   cell_pre, g_last_decr, g_decr_pending
+#define G_PRE   gp
 #define G_LIST  G_PRE, nG->f0, nG->f2
-#define G_A     G_LIST, cell_a, g_cont, g_cont_valid
-#define G_COL   G_A, erased_w, seen_c, cur_c, g_col_fresh, cell_col, g_cur_rm, g_cur_rm_valid, g_erased_cur, cell_b2, nH->f0, nH->f2
-#define G_B1    G_COL, seen_b, cur_b, cell_b1, has_c_cur, b1O->f0
+#define G_A     G_LIST, ga
+#define G_COL   G_A, gc, nH->f0, nH->f2
+#define G_B1    G_COL, gb, b1O->f0
 #define CONTRACT_PREM \
   __CPROVER_requires(v_this == g_this && v_block == g_blk && v_label == g_label && g_label < g_L && g_step == 0 && !erased_w && cell_rm == g_remove0 && g_remove0 != 0 && !g_decr_pending) \
   __CPROVER_assigns(G_B1, g_step, g_prelist, g_rmask, cell_rm, cell_S) \
